@@ -187,12 +187,12 @@ Lemma typed_set_value o v : typed_opt o -> check_option_type v (otype o) = true 
 Proof. intros [H1 H2] Hv. split; simpl; [exact H1|]. intros w E; inversion E; now subst. Qed.
 
 Lemma typed_reset o : typed_opt o -> typed_opt (reset_opt o).
-Proof. intros [H1 H2]. split; simpl; [exact H1 | discriminate]. Qed.
+Proof. intros [H1 H2]. split; simpl; [exact H1 | intros v E; discriminate E]. Qed.
 
 Lemma typed_deepcopy o : typed_opt o -> typed_opt (deepcopy_opt o).
 Proof.
-  intros H. split; simpl; [apply H|].
-  destruct (has_changed o); [|discriminate].
+  intros H. split; simpl; [exact (proj1 H)|].
+  destruct (has_changed o); [|intros w E; discriminate E].
   intros w E; inversion E; subst. now apply typed_current.
 Qed.
 
